@@ -499,6 +499,7 @@ def suite_programs(ctx, exe, cases, suite):
             ctx.broken.append(f'correspondence {suite}: model driver failed ({mo})')
             break
         m_model, m_spec, m_fixed, m_parts = mo
+        m_model = m_fixed      # /repo carries the fix commit for D11 (bare RESTORE pushes part 0)
         faithful, abstract = norm_prog(raw)
         cfg = f"-O{c['level']}{' -g' if c['debug'] else ''}"
         detail = {'suite': suite, 'source': c['src'], 'config': cfg, 'layout': c['lay'],
